@@ -10,7 +10,7 @@ CONSTANTS
   W = 0
   OOOCap = 2
   Acts = {"NewAppender", "Append", "Commit", "Rollback", "Compact", "Reopen", "EvictSel", "CompactStale", "Delete"}
-  Apis = {"v1", "v2"}
+  Apis = {"v1"}
   Rej = {FALSE}
   DelLo = {0}
   DelHi = {9}
@@ -18,7 +18,7 @@ CONSTANTS
   AllowKF = {}
   KFInitOpts = FALSE
   KFV1Hist = FALSE
-  MaxOps = 6
+  MaxOps = 5
   PreT = {}
   TSActs = {}
   Balanced = FALSE
